@@ -250,11 +250,20 @@ peg::parser! {
         rule number() -> Value
             = n:$( ("-")? ['0'..='9']+ ( "." ['0'..='9']+ )? ) {
                 if n.contains('.') {
-                    let f: f64 = n.parse::<f64>().unwrap();
-                    Value::Number(Number::from_f64(f).unwrap())
-                } else {
-                    let i: i64 = n.parse::<i64>().unwrap();
+                    // digits only, so parse cannot fail; a literal too large for f64 is kept as text
+                    n.parse::<f64>()
+                        .ok()
+                        .and_then(Number::from_f64)
+                        .map(Value::Number)
+                        .unwrap_or_else(|| Value::String(n.to_string()))
+                } else if let Ok(i) = n.parse::<i64>() {
                     Value::Number(i.into())
+                } else if let Ok(u) = n.parse::<u64>() {
+                    // unsigned literals above i64::MAX (u64 fields)
+                    Value::Number(u.into())
+                } else {
+                    // outside 64 bits: keep the digits as text instead of panicking
+                    Value::String(n.to_string())
                 }
             }
 
